@@ -223,6 +223,57 @@ def replay_stored(c, binp):
         print("nothing replayable in %s (TLC output: %s)" % (c.replay, rep.get("tlc_out")))
 
 
+def trace_verdict(c, path):
+    """(accepted, furthest, n) of one Trace_PathSync run (no drift/violation bookkeeping)"""
+    r = c.tlc(SD, "Trace_PathSync", mode="trace", env={"TRACE": path}, timeout=1500, expect_violation=True, coverage=False)
+    txt = open(r.out_path, errors="replace").read()
+    m = re.search(r'<<"FURTHEST", (\d+), "of", (\d+)>>', txt)
+    if not m:
+        c.fail_tool("Trace_PathSync produced no verdict (see %s)" % r.out_path)
+    f, n = int(m.group(1)), int(m.group(2))
+    return (f == n + 1 and not r.violated), f, n
+
+
+def binding_selfcheck(c, raw):
+    """DESIGN.md S6 (ii)/(iii): a recorded trace with one corrupted field, and one with one event
+    dropped, must be rejected by Trace_PathSync (the trace spec constrains more than the length)."""
+    rows = read_ndjson(raw)
+    # the first few runs only
+    out, runs = [], 0
+    for r in rows[1:]:
+        if r.get("ev") == "reset":
+            runs += 1
+            if runs > 6:
+                break
+        out.append(r)
+    base = os.path.join(c.work, "selfcheck_base.ndjson")
+    write_ndjson(base, [{"ev": "meta"}] + out)
+    norm = os.path.join(c.work, "selfcheck_base_norm.ndjson")
+    normalise_trace(base, norm)
+    ok, f, n = trace_verdict(c, norm)
+    if not ok:
+        return None   # the code under test deviates from the I-spec: reported as drift elsewhere
+    rows = read_ndjson(norm)
+    i = next((i for i, r in enumerate(rows) if r.get("ev") == "caller_check" and r.get("snap")), None)
+    j = next((i for i, r in enumerate(rows) if r.get("ev") == "fetch_done"), None)
+    if i is None or j is None:
+        return None
+    corrupt = [dict(r) for r in rows]
+    corrupt[i]["ongoing"] = not corrupt[i]["ongoing"]
+    corrupt[i]["init"] = not corrupt[i]["init"]
+    pa = os.path.join(c.work, "selfcheck_corrupt.ndjson")
+    write_ndjson(pa, corrupt)
+    pb = os.path.join(c.work, "selfcheck_dropped.ndjson")
+    write_ndjson(pb, rows[:j] + rows[j + 1:])
+    res = {}
+    for name, p in (("corrupted_field", pa), ("dropped_event", pb)):
+        ok, f, n = trace_verdict(c, p)
+        res[name] = "rejected at line %d of %d" % (f, n) if not ok else "ACCEPTED"
+        if ok:
+            c.fail_tool("binding self-check failed: a trace with a %s is accepted by Trace_PathSync" % name.replace("_", " "))
+    return res
+
+
 def run(c):
     thorough = c.tier == "thorough"
     rnd = random.Random(c.seed)
@@ -379,6 +430,8 @@ def run(c):
         acc, rej = validate_trace(c, tp, "replay_" + gname)
         traces += acc
     c.cov["replay_traces_validated"] = traces
+    if replay_traces:
+        c.cov["binding_selfcheck"] = binding_selfcheck(c, replay_traces[0][1])
 
     # ---- 3. record under real schedules -> trace validation ------------------------------------
     shards = 2 if not thorough else 8
